@@ -216,10 +216,10 @@ func min(a, b int) int {
 // ---------------------------------------------------------------------------------------------
 
 type contentFaults struct {
-	earlyEOF, corrupt, drop, dup, reorder bool
+	earlyEOF, corrupt, drop, dup, reorder, reencode bool
 }
 
-var allContentFaults = contentFaults{true, true, true, true, true}
+var allContentFaults = contentFaults{true, true, true, true, true, true}
 
 // deriveInput applies 0-3 content faults to x.  hot lists byte offsets where a fault is most
 // interesting (inside tokens, right after a state push, right before a closing delimiter).
@@ -251,8 +251,33 @@ func deriveInput(rc *RunCtx, x string, hot []int, allow contentFaults) (string, 
 		return simrt.Choose(n)
 	}
 	for i := 0; i < nf; i++ {
-		kind := simrt.Choose(5)
+		kind := simrt.Choose(6)
 		switch {
+		case kind == 5 && allow.reencode:
+			// what a file picks up on its way through other tools: a byte order mark, CR LF line
+			// ends, a legacy single-byte encoding of one non-ASCII character
+			switch simrt.Choose(3) {
+			case 0:
+				if !strings.HasPrefix(d, "\xef\xbb\xbf") {
+					d = "\xef\xbb\xbf" + d
+					fired = append(fired, "bom")
+				}
+			case 1:
+				if strings.Contains(d, "\n") && !strings.Contains(d, "\r\n") {
+					d = strings.ReplaceAll(d, "\n", "\r\n")
+					fired = append(fired, "crlf")
+				}
+			case 2:
+				for i := 0; i < len(d); {
+					r, sz := utf8.DecodeRuneInString(d[i:])
+					if sz > 1 && r < 0x100 {
+						d = d[:i] + string([]byte{byte(r)}) + d[i+sz:]
+						fired = append(fired, "latin1")
+						break
+					}
+					i += sz
+				}
+			}
 		case kind == 0 && allow.earlyEOF:
 			k := pick(len(d) + 1)
 			if k < len(d) {
@@ -288,7 +313,7 @@ func deriveInput(rc *RunCtx, x string, hot []int, allow contentFaults) (string, 
 				d = string(b)
 				fired = append(fired, "corrupt")
 			}
-		case kind >= 2 && len(d) >= 2:
+		case kind >= 2 && kind <= 4 && len(d) >= 2:
 			// chunk-level faults: cut d into a few pieces
 			a := pick(len(d))
 			ln := 1 + simrt.Choose(min(16, len(d)-a))
